@@ -9,7 +9,7 @@ TraceLog == ndJsonDeserialize(IOEnv.TRACE)
 
 Reset ==
   /\ kind' = "none" /\ slots' = <<>> /\ def' = Zero /\ err' = -1
-  /\ tab' = << >> /\ fin' = << >> /\ ever' = {} /\ ntok' = 0
+  /\ tab' = << >> /\ fin' = << >> /\ ever' = {} /\ ntok' = 0 /\ snap' = NoSnap
   /\ obs' = [a |-> "init", arg |-> [x |-> 0],
              exp |-> [ret |-> "ok", calls |-> <<>>, def |-> Zero, table |-> <<>>]]
 
@@ -29,6 +29,8 @@ Step(ev) ==
     [] ev.a = "fini"     -> Fini
     [] ev.a = "clearall" -> ClearAll
     [] ev.a = "drop"     -> Drop
+    [] ev.a = "snapshot" -> Snapshot
+    [] ev.a = "dropsnapshot" -> DropSnapshot
     [] ev.a = "emit"     -> EmitId(ev.arg.id, HR(ev.arg))
     [] ev.a = "emitmsg"  -> EmitMsg(ev.arg.data, HR(ev.arg))
     [] ev.a = "emitnone" -> EmitNone(HR(ev.arg))
